@@ -26,6 +26,9 @@ impl FifoConfig {
     pub fn get_config0(&self) -> FifoConfig0 {
         self.fifo_config0
     }
+    pub fn set_config0(&mut self, fifo_config0: FifoConfig0) {
+        self.fifo_config0 = fifo_config0;
+    }
 }
 
 /// Configure the 1024 byte FIFO Buffer Behavior
@@ -135,12 +138,13 @@ where
         let wm2_changes =
             self.device.config.fifo_config.fifo_config2.bits() != self.config.fifo_config2.bits();
         let fifo_wm_changes = wm1_changes || wm2_changes;
-        let mut tmp_int_config = self.device.config.int_config.get_config0();
+        let int_config0 = self.device.config.int_config.get_config0();
 
         // If enabled, temporarily disable the FIFO Watermark Interrupt to change the config
-        if self.device.config.int_config.get_config0().fwm_int() && fifo_wm_changes {
-            tmp_int_config = tmp_int_config.with_fwm_int(false);
+        if int_config0.fwm_int() && fifo_wm_changes {
+            let tmp_int_config = int_config0.with_fwm_int(false);
             self.device.interface.write_register(tmp_int_config)?;
+            self.device.config.int_config.set_config0(tmp_int_config);
         }
         if wm1_changes {
             self.device.interface.write_register(self.config.fifo_config1)?;
@@ -151,8 +155,9 @@ where
             self.device.config.fifo_config.fifo_config2 = self.config.fifo_config2;
         }
         // Re-enable the interrupt if it was changed
-        if self.device.config.int_config.get_config0().bits() != tmp_int_config.bits() {
-            self.device.interface.write_register(self.device.config.int_config.get_config0())?;
+        if self.device.config.int_config.get_config0().bits() != int_config0.bits() {
+            self.device.interface.write_register(int_config0)?;
+            self.device.config.int_config.set_config0(int_config0);
         }
         if self.device.config.fifo_config.fifo_pwr_config.bits()
             != self.config.fifo_pwr_config.bits()
